@@ -19,6 +19,8 @@ func nodePatterns() []string {
 		"1A 2A", "2A 1A", "1A 2A 1A", "1A 2A 2A", "1A! 2A 1A", "1A 2A! 2A", "1A R 2A 1A", "1AB 2B 2A", "1A 2B 1B 2A",
 		"2A 2A 1A 1A", "1A 2A? 2A", "1A 2AB 1B", "2A! 1A 2A", "1A 2A R 2A 1A", "1A? 2A 1A", "2AB 1A 1B 2A",
 		"*", "*", "*", "*",
+		// round 8: "0A" = the push names NO node (no X-CH-DSN): the registry chooses
+		"0A 0B 0C 0D 0E 0F 0G 0H", "0A 0A 0B 0B 1A 2A 0C 0D 0E 0F", "1A 0A 2B 0B 0C! 0C 0D? 0D 0E 0F", "0AB 0CD R 0AB 0EF 0G 0H 0A 0C",
 	}
 }
 
@@ -28,7 +30,7 @@ func genNodesHist(r *rand.Rand, id int, pat string) HCase {
 	day := day0 + int64(r.Intn(2))
 	tp := []int{1, 1, 1, 0, 2}[r.Intn(5)]
 	labels := map[byte][][2]string{}
-	for _, s := range []byte("AB") {
+	for _, s := range []byte("ABCDEFGH") {
 		inst++
 		labels[s] = [][2]string{{"app", "c04n"}, {"instance", "k" + strconv.Itoa(inst)}}
 	}
@@ -68,6 +70,8 @@ func genNodesHist(r *rand.Rand, id int, pat string) HCase {
 		st := Step{K: "push", TsOK: true, SplOK: true}
 		if w[0] == '2' {
 			st.Node = node2.Node
+		} else if w[0] == '0' {
+			st.Node = freeNode
 		}
 		for _, ch := range []byte(w[1:]) {
 			switch ch {
